@@ -1,5 +1,5 @@
 """C09 - exceptions reach the nearest matching handler and unwind cleanly (ZnEval, exception facet)."""
-import random, itertools, common
+import random, itertools, json, common
 from zneval import *
 from excfam import *
 
@@ -57,6 +57,27 @@ def family(tier, rnd):
                 for hks in combos:
                     for sel in (False, True):
                         P.append(chain_prog(depth, "custm", sw, list(hks), rnd.choice(["ret", "noret", "rethrow"]) if tier == "quick" else "ret", levels=levels, selective=sel))
+    # DEEP call chains: thousands of nested calls, the raise at the bottom, the handler far above (or none); afterwards the caller's
+    # 其, its variables and the call depth are what they were
+    def deep_prog(n, where, big=0):
+        deep = func("deep", ["N"], [if_([bin_("eq", var("N"), num(0))], [[throw("@exc", s("bottom"))]]), ret(bin_("add", call("deep", bin_("sub", var("N"), num(1))), num(1)))])
+        guard = func("guard", ["N"], [decl("G", num(7)), ret(call("deep", var("N")))], [catch("@exc", [disp(s("guard-h"), this("@content")), ret(num(-1))])])
+        kls = cls("DK", [("p", num(5))], methods=[func("m", ["N"], [decl("R", call("guard" if where == "guard" else "deep", var("N"))), disp(s("m-sees"), this("p")), ret(var("R"))],
+                                                       [catch("@exc", [disp(s("m-h"), this("@content")), ret(num(-2))])] if where == "method" else [])])
+        nn = num(n)
+        if big: nn["big"] = big
+        main = [decl("O", new("DK")), decl("M", num(3)), disp(mcall(var("O"), "m", nn)), disp(var("M")), disp(mcall(var("O"), "m", num(2))), mark("end"), ex(var("G"))]
+        pr = prog(main, funcs=[deep, guard], classes=[kls], catches=[catch("@exc", [disp(s("main-h"), this("@content")), ret(num(-3))])] if where == "main" else [])
+        pr["tag"] = "deep-%d-handled-in-%s" % (big or n, where)
+        if big: pr["scaled"] = True
+        return pr
+    # the specification runs depths 3, 11, 30 (the driver checks that its display trace / result do not depend on the depth); the
+    # interpreter runs the depth-30 program with 30 replaced by a depth in the thousands
+    for where in ("guard", "method", "main"):
+        for n in (3, 11, 30):
+            P.append(deep_prog(n, where))
+        for big in ((2300,) if tier == "quick" else (1500, 2300, 4500, 12000)):
+            P.append(deep_prog(30, where, big=big))
     # special sites: constructor, handler block faulting, method on object with 其 of the caller, two handlers same class
     def add(tag, p):
         p["tag"] = tag; P.append(p)
@@ -87,6 +108,12 @@ def run(ctx):
     progs = family(ctx.tier, rnd)
     log("[C09] %d programs" % len(progs))
     stats, vecs, res = run_family(ctx, znh, progs, "c09")
+    # the deep family: what the specification displays / yields must not depend on the depth (only then may the interpreter's run at
+    # a depth in the thousands be compared with the specification's run at depth 30)
+    for where in ("guard", "method", "main"):
+        small = [vecs[p["id"]] for p in progs if p["tag"] in ("deep-%d-handled-in-%s" % (n, where) for n in (3, 11, 30))]
+        if len(small) != 3 or any(json.dumps([v["out"], v["res"]["k"], v["res"].get("v")], sort_keys=True) != json.dumps([small[0]["out"], small[0]["res"]["k"], small[0]["res"].get("v")], sort_keys=True) for v in small):
+            raise common.NoVerdict("the specification's outcome of the deep family (%s) depends on the depth: scaling is not justified" % where)
     pick = [p for p in progs if p["tag"].startswith("d2/div/plain")][:1] + [p for p in progs if p["tag"] == "recursive-unwind"]
     samples = [dict(tag=p["tag"], source=res[p["id"]].get("src"), spec_result=vecs[p["id"]]["res"], spec_display=vecs[p["id"]]["out"]) for p in pick]
     cov = dict(traces_validated_against_impl=stats["programs"] - stats["skipped"], samples=samples,
@@ -94,7 +121,7 @@ def run(ctx):
                rule="raise kind {抛出异常, 抛出 custom class, index out of range, division by zero} x raise depth 0..3 x site {plain, in 每当, in 遍历, in 如果; inside the target expression of 遍历, the condition of 每当 / 如果 / 再如, a call argument, a declaration, a list literal, an 输出 value} "
                     "x handler placement per frame {none, matching, non-matching, non-matching then matching} x handler ending {输出, none, none with a valued last statement, raises again}, "
                     "each followed by probes (caller local, second identical call, callee local must be undefined); the same with the call chain crossing one or two module-file boundaries (main -> 模甲 -> 模乙, then a method of the main file must still be callable); plus constructor / handler-fault / "
-                    "receiver-restoration / recursion programs. The ZnEval machine (TLC) gives the expected statement trace, call depth at every "
+                    "receiver-restoration / recursion programs; DEEP chains: a raise at the bottom of 2300 (thorough: up to 12000) nested calls handled in a guarding method / the calling type method / the main program, then the caller's 其, its variables, a second call and the call depth (the specification runs depths 3, 11, 30 - outcome independent of the depth, checked - the interpreter the same program at the large depth; display trace, result, final error and end state compared, the statement trace is not). The ZnEval machine (TLC) gives the expected statement trace, call depth at every "
                     "statement, display trace and outcome; the real run must match event by event. distinct = distinct matrix cells",
                **stats)
     return cov, ["message wording of built-in faults is not compared (any non-empty text)", "module files of the cross-module programs contain methods only (no module-level statements or types); custom exception types are raised in the main file only"]
